@@ -127,6 +127,9 @@ class Program:
                     tree = ast.parse(src, filename=path)
                 except SyntaxError as e:  # the tree must compile
                     raise AnalysisError(f"cannot parse {path}: {e}") from e
+                if os.environ.get("PV_NO_ROLES") != "1":
+                    from . import roles
+                    self.renamed_locals = getattr(self, "renamed_locals", 0) + roles.apply(tree, name)
                 mi = ModuleInfo(name, path, src, tree)
                 self.modules[name] = mi
                 self._index_module(mi)
